@@ -29,15 +29,18 @@ class ObjPool:
     for one that has already been used (C09 / C10), so every harness alternates between the two."""
     def __init__(self):
         self._objs = {}
-        self.n = 0
+        self._calls = {}
 
     def get(self, cls, reuse=None, **opts):
-        self.n += 1
+        key = (cls.__module__, cls.__name__, json.dumps(opts, sort_keys=True, default=str))
+        # counted per (class, options) -- a global counter can run in step with a harness that cycles through formats,
+        # and then one class would always get a fresh object: fresh, pooled, pooled, fresh, ...
+        k = self._calls.get(key, 0)
+        self._calls[key] = k + 1
         if reuse is None:
-            reuse = self.n % 2 == 0
+            reuse = k % 3 != 0
         if not reuse:
             return cls(**opts)
-        key = (cls.__module__, cls.__name__, json.dumps(opts, sort_keys=True, default=str))
         if key not in self._objs:
             self._objs[key] = cls(**opts)
         return self._objs[key]
